@@ -139,6 +139,18 @@ func init() {
 				}
 				walk(fd.Body, "")
 				ast.Inspect(fd.Body, func(n ast.Node) bool {
+					// the ES2015 property shorthand `{a}`: written when the `name:` prefix is skipped because the value is a
+					// variable of the same name — record whether that condition consults the version
+					if ifs, ok := n.(*ast.IfStmt); ok {
+						ct := exprText(r.Fset, ifs.Cond)
+						if strings.Contains(ct, ".IsIdent(") {
+							g := "no-gate"
+							if i := strings.Index(ct, "minVersion("); i >= 0 {
+								g = ct[i : i+strings.Index(ct[i:], ")")+1]
+							}
+							producers = append(producers, fmt.Sprintf("%s: property shorthand (name: skipped when Name.IsIdent) gate %s", fn, g))
+						}
+					}
 					call, ok := n.(*ast.CallExpr)
 					if !ok {
 						return true
@@ -178,6 +190,99 @@ func init() {
 		fmt.Fprintf(&b, "def gates : List String := %s\n\n", leanStrList(gates))
 		fmt.Fprintf(&b, "def producers : List String := %s\n", leanStrList(producers))
 		b.WriteString(footer("JsVersionGates"))
+		return b.String(), nil
+	})
+}
+
+// option reads: every place where a field of a Minifier option struct is read in the six minifier packages, with the
+// enclosing function and the innermost context (the call it is an argument of, the `if` condition it occurs in, or the
+// assignment it feeds) — so that a new consumer of an option, or an option check that disappears, changes the
+// regenerated list (`option_sites_ok`).
+func init() {
+	gen("OptionSites", func(r *Repo) (string, error) {
+		fields := map[string]bool{"KeepComments": true, "KeepConditionalComments": true, "KeepSpecialComments": true,
+			"KeepDefaultAttrVals": true, "KeepDocumentTags": true, "KeepEndTags": true, "KeepQuotes": true, "KeepWhitespace": true,
+			"TemplateDelims": true, "KeepCSS2": true, "Precision": true, "newPrecision": true, "Inline": true, "KeepVarNames": true,
+			"useAlphabetVarNames": true, "Version": true, "KeepNumbers": true}
+		var sites []string
+		for _, pkg := range []string{"css", "html", "js", "json", "svg", "xml"} {
+			fs, err := r.Files(pkg)
+			if err != nil {
+				return "", err
+			}
+			for _, f := range fs {
+				for _, d := range f.Decls {
+					fd, ok := d.(*ast.FuncDecl)
+					if !ok || fd.Body == nil {
+						continue
+					}
+					fn := funcName(fd)
+					var stack []ast.Node
+					ast.Inspect(fd.Body, func(n ast.Node) bool {
+						if n == nil {
+							stack = stack[:len(stack)-1]
+							return true
+						}
+						stack = append(stack, n)
+						sel, ok := n.(*ast.SelectorExpr)
+						if !ok || !fields[sel.Sel.Name] {
+							return true
+						}
+						recv := exprText(r.Fset, sel.X)
+						if recv != "o" && !strings.HasSuffix(recv, ".o") && recv != "tmp" {
+							return true
+						}
+						ctx := "expr"
+						for i := len(stack) - 2; i >= 0; i-- {
+							switch t := stack[i].(type) {
+							case *ast.CallExpr:
+								isArg := false
+								for _, a := range t.Args {
+									if a.Pos() <= sel.Pos() && sel.End() <= a.End() {
+										isArg = true
+									}
+								}
+								if isArg {
+									ctx = "arg of " + exprText(r.Fset, t.Fun)
+								}
+							case *ast.IfStmt:
+								if t.Cond.Pos() <= sel.Pos() && sel.End() <= t.Cond.End() {
+									c := exprText(r.Fset, t.Cond)
+									if len(c) > 60 {
+										c = c[:60] + ".."
+									}
+									ctx = "if " + c
+								}
+							case *ast.AssignStmt:
+								onLeft := false
+								for _, l := range t.Lhs {
+									if l.Pos() <= sel.Pos() && sel.End() <= l.End() {
+										onLeft = true
+									}
+								}
+								if onLeft {
+									ctx = "WRITE"
+								} else {
+									ctx = "assigned to " + exprText(r.Fset, t.Lhs[0])
+								}
+							case *ast.ReturnStmt:
+								ctx = "returned"
+							}
+							if ctx != "expr" {
+								break
+							}
+						}
+						sites = append(sites, fmt.Sprintf("%s.%s: %s %s", pkg, fn, sel.Sel.Name, ctx))
+						return true
+					})
+				}
+			}
+		}
+		sort.Strings(sites)
+		var b strings.Builder
+		b.WriteString(header("OptionSites", "/repo/{css,html,js,json,svg,xml} (every read or write of an option field)"))
+		fmt.Fprintf(&b, "def sites : List String := %s\n", leanStrList(sites))
+		b.WriteString(footer("OptionSites"))
 		return b.String(), nil
 	})
 }
